@@ -418,11 +418,15 @@ Current == SU(st.un, st.pk, ms)
 DView(r) == [impl |-> FALSE, raise |-> r, devs |-> {}]
 IView(D, r) == [impl |-> TRUE, raise |-> r, devs |-> D]
 
+RECURSIVE HasUnnamedBF(_)
+HasUnnamedBF(T) == IF T.k = "sc" THEN FALSE ELSE IF T.k = "arr" THEN HasUnnamedBF(T.of)
+                   ELSE \E i \in 1..Len(T.ms) : (IsBF(T.ms[i]) /\ ~T.ms[i].nm) \/ HasUnnamedBF(T.ms[i].t)
+
 Case(T) ==
   LET e0 == Summary(T, DView(FALSE))
-      e1 == Summary(T, DView(TRUE))
+      e1 == IF HasUnnamedBF(T) THEN Summary(T, DView(TRUE)) ELSE e0      \* `raise` only matters for unnamed bit-fields
       m0 == Summary(T, IView(Devs, FALSE))          \* what the current code is modelled to do
-      m1 == Summary(T, IView(Devs, TRUE))
+      m1 == IF "UnnamedNoAlign" \in Devs \/ ~HasUnnamedBF(T) THEN m0 ELSE Summary(T, IView(Devs, TRUE))
       fired(r, e, m) == IF m = e THEN {} ELSE {d \in Devs : Summary(T, IView(Devs \ {d}, r)) # m}
   IN [k |-> "su", t |-> T, exp0 |-> e0,
       exp1 |-> IF e1 = e0 THEN [same |-> TRUE] ELSE e1,
@@ -520,7 +524,7 @@ Finish ==
 Input == IF Mode = "eval" THEN ndJsonDeserialize(IOEnv.LAYOUT_IN) ELSE <<>>
 EvalOne ==
   /\ Mode = "eval" /\ phase = "idle"
-  /\ Assert(DeclSane(pool[1].t, FALSE) /\ DeclSane(pool[1].t, TRUE), <<"declarative layout not sane", want>>)
+  /\ Assert(DeclSane(pool[1].t, FALSE) /\ (HasUnnamedBF(pool[1].t) => DeclSane(pool[1].t, TRUE)), <<"declarative layout not sane", want>>)
   /\ PrintT("VCASE " \o ToJson([i |-> want] @@ Case(pool[1].t)))
   /\ phase' = "done"
   /\ UNCHANGED <<st, ms, outs, pool, want, pick>>
